@@ -271,7 +271,7 @@ func famLayout() {
 		all = append(all, k)
 	}
 	sortStrings(all)
-	heavy := []string{"(", ")", "SP", "NL", ";", "Q", "a", "1"}
+	heavy := []string{"(", ")", "SP", "NL", ";", "Q", "a", "1", "Agrave", "Ni"}
 	for i := 0; i < *fN; i++ {
 		n := 4 + r.Intn(14)
 		m := make([]string, n)
